@@ -4,9 +4,10 @@ CFG = {
     "properties_file": "Properties/C16.v",
     "corr_files": ["Corr/C16.v"],
     "streams": [S("C16", "drive_lts", 160, 4000, race=True)],
-    "rule": "seeded random walks over driver actions (issue GETATTR/WRITE/NULL through HandleCall or a loopback TCP connection, "
+    "rule": "seeded random walks over driver actions (issue GETATTR/WRITE/NULL and, in the direct family, MOUNT-program calls - "
+            "MNT of a fresh sub-directory / of a nested path / of \"/\", NULL, DUMP, EXPORT, UMNT - through HandleCall or a loopback TCP connection, "
             "hold/release gated backend calls, let HandleCall time out, UpdatePolicyOptions with random ReadOnly/Secure/limiter/"
-            "Squash values, lock probe, open connection), each thread a goroutine on the real code; 4 families: direct (66%), "
+            "Squash/AllowedIPs (20% refuse the caller) values, lock probe, open connection), each thread a goroutine on the real code; 4 families: direct (66%), "
             "tcp-limiter with frozen clock (20%), tcp-drain (10%), tcp-stress (4%: unsequenced concurrent traffic and updates, no "
             "trace, for the race detector); a case is non-trivial when an update overlapped an executing "
             "request (drain) or the limiter was switched at runtime; schedules that could not be enacted are counted, not judged; "
